@@ -103,6 +103,11 @@ func (impl Implementation) Dbdsqr(uplo blas.Uplo, n, ncvt, nru, ncc int, d, e, v
 	if n != 1 {
 		// If the singular vectors do not need to be computed, use qd algorithm.
 		if !(ncvt > 0 || nru > 0 || ncc > 0) {
+			if len(work) < 4*n {
+				// Dlasq1 needs 4*n elements of scratch space, four more
+				// than the documented minimum length of work.
+				work = make([]float64, 4*n)
+			}
 			info = impl.Dlasq1(n, d, e, work)
 			// If info is 2 dqds didn't finish, and so try to.
 			if info != 2 {
